@@ -24,8 +24,8 @@ VT = _VT()
 
 def subharnesses(tier):
     subs = []
-    counts = (0, 1, 2, 3)
-    currents = (0, 1, 2, 3, 4)
+    counts = (0, 1, 2, 3, 5)
+    currents = (0, 1, 2, 3, 4, 6)
     for c in counts:
         for cur in currents:
             for susp in ('never', 'sym'):
@@ -50,8 +50,8 @@ def subharnesses(tier):
                                  {'count': c, 'current': cur, 'susp': susp,
                                   'outcome': 'ok', 'last_waited': False,
                                   'policy': None}))
-    if tier == 'thorough':
-        for c, cur in ((2, 0), (3, 1), (1, 3)):
+    if True:
+        for c, cur in ((2, 0), (3, 1), (1, 3), (5, 2), (0, 0)):
             subs.append(('two-monitors-%d-%d' % (c, cur),
                          {'count': c, 'current': cur, 'susp': 'sym',
                           'outcome': 'ok', 'last_waited': False,
